@@ -433,10 +433,12 @@ def check_c13(pid, tier, build, props):
                        "(Model/DomWl.v, tied by dominator_worklist_model) and proved for ALL graphs and ALL "
                        "iteration orders of the successor sets (C13_dominator_worklist_correct): it terminates "
                        "within the stated fuel, the assertion and the key look-ups never fail, and the table is "
-                       "the dominance relation of the reference definition. Not proved: that the vendored "
-                       "iterative Tarjan and is_reachable_dfs equal the references on ALL graphs (compared "
-                       "exhaustively up to the stated bound and on random graphs); _imm_doms is exercised only "
-                       "through the pipeline.",
+                       "the dominance relation of the reference definition. is_reachable_dfs is modelled line by line "
+                       "too (Model/Dfs.v) and proved total and equal to the path definition on every graph "
+                       "(C13_reachability_dfs); its answers are part of the comparison. Not proved: that the "
+                       "vendored iterative Tarjan equals the reference on ALL graphs (compared exhaustively up "
+                       "to the stated bound and on random graphs); _imm_doms is exercised only through the "
+                       "pipeline.",
     }
     return {"coverage": coverage, "violations": violations, "problems": problems, "level": "proof",
             "wall_s": t.s(), "broken_name": "Props/C13.v / correspondence implementation = reference (RunC13)"}
